@@ -1,1 +1,1414 @@
-//! Property-specific engine extensions for C03 (owned by the C03 check).
+//! Property-specific engine extensions for C03 (owned by the C03 check): extra ways to pay (multi-path via an
+//! explicit route, the real router with retries, keysend, duplicate ids, abandon), the operations of the C03
+//! profile, the end game that drives a world to full resolution, and the oracle over the sender's event stream.
+//!
+//! Sender S is always node 0; it funds every channel it has. Only S sends.
+
+use crate::model::Upd;
+use crate::ops::*;
+use crate::oracle_commit::CommitOracle;
+use crate::sim::*;
+use bitcoin::hashes::{sha256, Hash};
+use lightning::chain::channelmonitor::Balance;
+use lightning::events::{Event, PathFailure};
+use lightning::ln::channel_state::OutboundHTLCSource;
+use lightning::ln::channelmanager::{PaymentId, RecentPaymentDetails};
+use lightning::ln::functional_test_utils::*;
+use lightning::ln::msgs;
+use lightning::ln::outbound_payment::{RecipientOnionFields, Retry};
+use lightning::ln::types::ChannelId;
+use lightning::routing::gossip::NodeId;
+use lightning::routing::router::{PaymentParameters, Route, RouteParameters};
+use lightning::types::features::ChannelFeatures;
+use lightning::types::payment::{PaymentHash, PaymentPreimage, PaymentSecret};
+use proptest::prelude::*;
+use serde::{Deserialize, Serialize};
+use std::collections::{BTreeMap, BTreeSet};
+use vcore::{pick, CaseResult, Failure};
+
+pub const S: usize = 0;
+
+/// development aid: append a line to the file named by C03_DEBUG_END
+pub fn dbg_line(l: &str) {
+	if let Ok(p) = std::env::var("C03_DEBUG_END") {
+		use std::io::Write;
+		if let Ok(mut f) = std::fs::OpenOptions::new().create(true).append(true).open(p) {
+			let _ = writeln!(f, "{}", l);
+		}
+	}
+}
+
+fn fail(oracle: &str, detail: String) -> Failure {
+	Failure::new(oracle, detail)
+}
+
+// -------------------------------------------------------------------------------------------------
+// engine additions
+// -------------------------------------------------------------------------------------------------
+
+#[derive(Clone, Copy, Debug, PartialEq, Eq)]
+pub enum Kind {
+	Route,
+	Underpay,
+	Mpp,
+	Router,
+	Keysend,
+}
+
+/// Routes S can use explicitly, as channel index lists.
+pub fn s_routes(t: Topology) -> Vec<Vec<usize>> {
+	match t {
+		Topology::Pair => vec![vec![0]],
+		Topology::Line3 => vec![vec![0, 1], vec![0]],
+		Topology::Line4 => vec![vec![0, 1, 2], vec![0, 1], vec![0]],
+		Topology::Diamond => vec![vec![0, 1], vec![2, 3], vec![0], vec![2]],
+		Topology::Line3Parallel => vec![vec![0, 1], vec![0, 2], vec![0]],
+	}
+}
+
+/// Multi-path shapes from S to the recipient (last node).
+pub fn mpp_shapes(t: Topology) -> Vec<Vec<Vec<usize>>> {
+	match t {
+		Topology::Pair => vec![vec![vec![0], vec![0]], vec![vec![0], vec![0], vec![0]]],
+		Topology::Line3 => vec![vec![vec![0, 1], vec![0, 1]]],
+		Topology::Line4 => vec![vec![vec![0, 1, 2], vec![0, 1, 2]]],
+		Topology::Diamond => vec![vec![vec![0, 1], vec![2, 3]], vec![vec![0, 1], vec![2, 3], vec![0, 1]], vec![vec![2, 3], vec![0, 1], vec![2, 3], vec![0, 1]]],
+		Topology::Line3Parallel => vec![vec![vec![0, 1], vec![0, 2]]],
+	}
+}
+
+impl Sim {
+	/// Teach every node's network graph the channels of the world (the simulator drops LDK's broadcast copies):
+	/// the announcement is rebuilt from the negotiated keys, each direction's policy is what the forwarding end
+	/// reports for the channel through `list_channels` (fees, cltv delta, the peer's HTLC minimum / maximum).
+	pub fn c03_seed_graphs(&mut self) -> Result<(), String> {
+		let chain_hash = bitcoin::constants::ChainHash::using_genesis_block(bitcoin::Network::Testnet);
+		for (ci, c) in self.chans.iter().enumerate() {
+			let (ida, idb) = (self.w.node_id(c.a), self.w.node_id(c.b));
+			let (ka, kb) = (c.open.common_fields.funding_pubkey, c.accept.common_fields.funding_pubkey);
+			let a_first = ida.serialize() < idb.serialize();
+			let (n1, n2, k1, k2) = if a_first { (ida, idb, ka, kb) } else { (idb, ida, kb, ka) };
+			let ann = msgs::UnsignedChannelAnnouncement {
+				features: ChannelFeatures::empty(),
+				chain_hash,
+				short_channel_id: c.scid,
+				node_id_1: NodeId::from_pubkey(&n1),
+				node_id_2: NodeId::from_pubkey(&n2),
+				bitcoin_key_1: NodeId::from_pubkey(&k1),
+				bitcoin_key_2: NodeId::from_pubkey(&k2),
+				excess_data: vec![],
+			};
+			let mut ups = vec![];
+			for (end, is_first) in [(c.a, a_first), (c.b, !a_first)] {
+				let det = self.chan_details(end, ci).ok_or("channel missing")?;
+				let cfg = det.config.ok_or("no channel config")?;
+				ups.push(msgs::UnsignedChannelUpdate {
+					chain_hash,
+					short_channel_id: c.scid,
+					timestamp: 1000,
+					message_flags: 1,
+					channel_flags: if is_first { 0 } else { 1 },
+					cltv_expiry_delta: cfg.cltv_expiry_delta,
+					htlc_minimum_msat: det.counterparty.outbound_htlc_minimum_msat.unwrap_or(1),
+					htlc_maximum_msat: det.counterparty.outbound_htlc_maximum_msat.unwrap_or(c.value_sat * 1000),
+					fee_base_msat: cfg.forwarding_fee_base_msat,
+					fee_proportional_millionths: cfg.forwarding_fee_proportional_millionths,
+					excess_data: vec![],
+				});
+			}
+			for nd in self.w.nodes.iter() {
+				nd.network_graph
+					.update_channel_from_unsigned_announcement::<&lightning::util::test_utils::TestChainSource>(&ann, &None)
+					.map_err(|e| format!("announcement rejected: {:?}", e.err))?;
+				for u in ups.iter() {
+					nd.network_graph.update_channel_unsigned(u).map_err(|e| format!("channel_update rejected: {:?}", e.err))?;
+				}
+			}
+		}
+		Ok(())
+	}
+
+	fn c03_next_id(&mut self) -> PaymentId {
+		let idn = self.next_payment_id;
+		self.next_payment_id += 1;
+		let mut idb = [0u8; 32];
+		idb[..8].copy_from_slice(&idn.to_be_bytes());
+		PaymentId(idb)
+	}
+
+	fn c03_push(&mut self, to: usize, nodes: Vec<usize>, chans: Vec<usize>, amt: u64, hash: PaymentHash, preimage: PaymentPreimage, secret: PaymentSecret, id: PaymentId, ok: bool) -> usize {
+		self.pays.push(PayInfo {
+			idx: self.pays.len(),
+			from: S,
+			to,
+			path_nodes: nodes,
+			path_chans: chans,
+			amt_msat: amt,
+			hash,
+			preimage,
+			secret,
+			id,
+			state: if ok { PayState::Sent } else { PayState::Refused },
+			claimable_seen: false,
+			claimed_event: false,
+			sent_event: false,
+			failed_event: false,
+			cltv_expiry: self.chain.height() + 1 + TEST_FINAL_CLTV,
+		});
+		self.w.nodes[S].chain_monitor.added_monitors.lock().unwrap().clear();
+		self.drain(S);
+		self.pays.len() - 1
+	}
+
+	fn c03_route_params(&self, to: usize, amt: u64, mpp: bool, keysend: bool) -> RouteParameters {
+		let payee = self.w.node_id(to);
+		let mut pp = if keysend {
+			PaymentParameters::for_keysend(payee, TEST_FINAL_CLTV, false)
+		} else {
+			PaymentParameters::from_node_id(payee, TEST_FINAL_CLTV).with_bolt11_features(self.w.nodes[to].node.bolt11_invoice_features()).unwrap()
+		};
+		if !mpp {
+			pp.max_path_count = 1;
+		}
+		let mut rp = RouteParameters::from_payment_params_and_value(pp, amt);
+		rp.max_total_routing_fee_msat = None;
+		rp
+	}
+
+	/// One `Route` with one `Path` per part (each built with the forwarders' advertised policy).
+	pub fn c03_build_multi(&self, parts: &[(Vec<usize>, u64)]) -> Option<(Route, usize, Vec<usize>)> {
+		let mut paths = vec![];
+		let mut to = 0;
+		let mut nodes0 = vec![];
+		for (chans, amt) in parts {
+			let (r, nodes) = self.build_route(S, chans, *amt, TEST_FINAL_CLTV)?;
+			if paths.is_empty() {
+				to = *nodes.last().unwrap();
+				nodes0 = nodes.clone();
+			} else if *nodes.last().unwrap() != to {
+				return None;
+			}
+			paths.push(r.paths[0].clone());
+		}
+		let total: u64 = parts.iter().map(|p| p.1).sum();
+		let route_params = self.c03_route_params(to, total, true, false);
+		Some((Route { paths, route_params }, to, nodes0))
+	}
+
+	/// Explicit (multi-)path payment. `tweak`: 0 none, 1 first hop pays the next forwarder 1..n msat too little,
+	/// 2 first hop grants one block less than the forwarder's cltv_expiry_delta.
+	pub fn c03_send_explicit(&mut self, parts: &[(Vec<usize>, u64)], tweak: u8) -> Option<(usize, PaymentId, String, bool)> {
+		let (mut route, to, nodes) = self.c03_build_multi(parts)?;
+		if tweak != 0 {
+			let h = &mut route.paths[0].hops;
+			if h.len() < 2 {
+				return None;
+			}
+			if tweak == 1 {
+				if h[0].fee_msat == 0 {
+					return None;
+				}
+				h[0].fee_msat -= 1 + (h[0].fee_msat - 1) / 2;
+			} else {
+				h[0].cltv_expiry_delta -= 1;
+			}
+		}
+		let (preimage, hash, secret) = get_payment_preimage_hash(&self.w.nodes[to], None, None);
+		let id = self.c03_next_id();
+		let total: u64 = parts.iter().map(|p| p.1).sum();
+		let res = self.w.nodes[S].node.send_payment_with_route(route, hash, RecipientOnionFields::secret_only(secret, total), id);
+		let ok = res.is_ok();
+		let detail = format!("{:?}", res);
+		self.rec(SEvent::Api { node: S, what: format!("send-explicit pay#{} parts={:?} tweak={}", self.pays.len(), parts, tweak), ok, detail: detail.clone() });
+		let idx = self.c03_push(to, nodes, parts[0].0.clone(), total, hash, preimage, secret, id, ok);
+		Some((idx, id, detail, ok))
+	}
+
+	/// Payment through the node's real router with automatic retries.
+	pub fn c03_send_router(&mut self, to: usize, amt: u64, retries: u8, mpp: bool) -> (usize, PaymentId, String, bool) {
+		let (preimage, hash, secret) = get_payment_preimage_hash(&self.w.nodes[to], None, None);
+		let id = self.c03_next_id();
+		let rp = self.c03_route_params(to, amt, mpp, false);
+		let res = self.w.nodes[S].node.send_payment(hash, RecipientOnionFields::secret_only(secret, amt), id, rp, Retry::Attempts(retries as u32));
+		let ok = res.is_ok();
+		let detail = format!("{:?}", res);
+		self.rec(SEvent::Api { node: S, what: format!("send-router pay#{} to={} amt={} retries={} mpp={}", self.pays.len(), to, amt, retries, mpp), ok, detail: detail.clone() });
+		let idx = self.c03_push(to, vec![S, to], vec![], amt, hash, preimage, secret, id, ok);
+		(idx, id, detail, ok)
+	}
+
+	/// Spontaneous payment (the sender picks the preimage) through the router.
+	pub fn c03_keysend(&mut self, to: usize, amt: u64, retries: u8) -> (usize, PaymentId, String, bool) {
+		let id = self.c03_next_id();
+		let mut seed = b"c03-keysend-preimage".to_vec();
+		seed.extend_from_slice(&id.0);
+		let preimage = PaymentPreimage(sha256::Hash::hash(&seed).to_byte_array());
+		let hash = PaymentHash(sha256::Hash::hash(&preimage.0).to_byte_array());
+		let rp = self.c03_route_params(to, amt, false, true);
+		let res = self.w.nodes[S].node.send_spontaneous_payment(Some(preimage), RecipientOnionFields::spontaneous_empty(amt), id, rp, Retry::Attempts(retries as u32));
+		let ok = res.is_ok();
+		let detail = format!("{:?}", res);
+		self.rec(SEvent::Api { node: S, what: format!("keysend pay#{} to={} amt={} retries={}", self.pays.len(), to, amt, retries), ok, detail: detail.clone() });
+		let idx = self.c03_push(to, vec![S, to], vec![], amt, hash, preimage, PaymentSecret([0; 32]), id, ok);
+		(idx, id, detail, ok)
+	}
+
+	/// A second send with the id of payment `pay`. Returns (refused, refused as DuplicatePayment, detail).
+	pub fn c03_dup_send(&mut self, pay: usize, kind: u8) -> (bool, bool, String) {
+		let p = self.pays[pay].clone();
+		let chans: Vec<usize> = if p.path_chans.is_empty() { vec![0] } else { p.path_chans.clone() };
+		let detail = match kind % 4 {
+			0 | 3 => {
+				// explicit route; kind 3 uses a freshly registered hash
+				let (hash, secret) = if kind % 4 == 0 {
+					(p.hash, p.secret)
+				} else {
+					let (_, h, s) = get_payment_preimage_hash(&self.w.nodes[p.to], None, None);
+					(h, s)
+				};
+				match self.build_route(S, &chans, p.amt_msat.max(1), TEST_FINAL_CLTV) {
+					Some((route, _)) => format!("{:?}", self.w.nodes[S].node.send_payment_with_route(route, hash, RecipientOnionFields::secret_only(secret, p.amt_msat.max(1)), p.id)),
+					None => "skipped".to_string(),
+				}
+			},
+			1 => {
+				let rp = self.c03_route_params(p.to, p.amt_msat.max(1), true, false);
+				format!("{:?}", self.w.nodes[S].node.send_payment(p.hash, RecipientOnionFields::secret_only(p.secret, p.amt_msat.max(1)), p.id, rp, Retry::Attempts(1)))
+			},
+			_ => {
+				let rp = self.c03_route_params(p.to, p.amt_msat.max(1), false, true);
+				format!("{:?}", self.w.nodes[S].node.send_spontaneous_payment(None, RecipientOnionFields::spontaneous_empty(p.amt_msat.max(1)), p.id, rp, Retry::Attempts(0)))
+			},
+		};
+		let refused = detail.starts_with("Err(");
+		let dup = detail.contains("DuplicatePayment");
+		self.rec(SEvent::Api { node: S, what: format!("dup-send pay#{} kind={}", pay, kind % 4), ok: !refused, detail: detail.clone() });
+		self.w.nodes[S].chain_monitor.added_monitors.lock().unwrap().clear();
+		self.drain(S);
+		(refused, dup, detail)
+	}
+
+	pub fn c03_abandon(&mut self, pay: usize) {
+		let id = self.pays[pay].id;
+		self.w.nodes[S].node.abandon_payment(id);
+		self.rec(SEvent::Api { node: S, what: format!("abandon pay#{}", pay), ok: true, detail: String::new() });
+		self.drain(S);
+	}
+
+	/// ids S lists among its recent payments: id -> (variant name, hash if given)
+	pub fn c03_recent(&self) -> BTreeMap<[u8; 32], &'static str> {
+		let mut m = BTreeMap::new();
+		for d in self.w.nodes[S].node.list_recent_payments() {
+			match d {
+				RecentPaymentDetails::AwaitingInvoice { payment_id } => m.insert(payment_id.0, "awaiting"),
+				RecentPaymentDetails::Pending { payment_id, .. } => m.insert(payment_id.0, "pending"),
+				RecentPaymentDetails::Fulfilled { payment_id, .. } => m.insert(payment_id.0, "fulfilled"),
+				RecentPaymentDetails::Abandoned { payment_id, .. } => m.insert(payment_id.0, "abandoned"),
+			};
+		}
+		m
+	}
+
+	/// sum of `outbound_capacity_msat` over S's channels; None if a channel is gone or a value is saturated at 0
+	pub fn c03_s_capacity(&self) -> Option<u64> {
+		let mut sum = 0;
+		for (i, c) in self.chans.iter().enumerate() {
+			if c.a == S || c.b == S {
+				let d = self.chan_details(S, i)?;
+				if d.outbound_capacity_msat == 0 {
+					return None;
+				}
+				sum += d.outbound_capacity_msat;
+			}
+		}
+		Some(sum)
+	}
+
+	/// (payment ids, payment hashes) of HTLCs S still has in flight: on live channels by `source`, on closed
+	/// channels by the hash of a timeout-claimable balance of an outbound payment.
+	pub fn c03_inflight(&self) -> (BTreeSet<[u8; 32]>, BTreeSet<PaymentHash>) {
+		let mut ids = BTreeSet::new();
+		let mut hashes = BTreeSet::new();
+		for d in self.w.nodes[S].node.list_channels() {
+			for h in d.pending_outbound_htlcs.iter() {
+				hashes.insert(h.payment_hash);
+				if let Some(OutboundHTLCSource::Local { payment_id }) = &h.source {
+					ids.insert(payment_id.0);
+				}
+			}
+		}
+		for b in self.w.nodes[S].chain_monitor.chain_monitor.get_claimable_balances(&[]) {
+			if let Balance::MaybeTimeoutClaimableHTLC { payment_hash, outbound_payment: true, .. } = b {
+				hashes.insert(payment_hash);
+			}
+		}
+		(ids, hashes)
+	}
+
+	/// true while transactions wait to be mined or S still has an HTLC output to resolve on chain (balances that
+	/// only wait for a CSV / confirmation delay do not influence payment outcomes and are not waited for)
+	pub fn c03_chain_unresolved(&self) -> bool {
+		if !self.chain.mempool.is_empty() {
+			return true;
+		}
+		for b in self.w.nodes[S].chain_monitor.chain_monitor.get_claimable_balances(&[]) {
+			if matches!(b, Balance::MaybeTimeoutClaimableHTLC { .. } | Balance::MaybePreimageClaimableHTLC { .. } | Balance::ContentiousClaimable { .. }) {
+				return true;
+			}
+		}
+		false
+	}
+
+	/// `settle`, tolerating one artifact of the simulator's transport: error messages are handed over at once
+	/// while a `channel_reestablish` emitted just before them waits in the FIFO, so two nodes that both closed a
+	/// channel can answer each other's "unknown channel" reestablish for ever. Cutting the connection ends it.
+	pub fn c03_settle(&mut self, max_rounds: usize) -> bool {
+		if self.settle(max_rounds) {
+			return true;
+		}
+		let bogus: Vec<(usize, usize)> = self
+			.links
+			.iter()
+			.filter(|(_, q)| q.iter().any(|w| matches!(w, Wire::Reestablish(m) if m.next_local_commitment_number == 0 && m.next_remote_commitment_number == 0)))
+			.map(|(k, _)| *k)
+			.collect();
+		if bogus.is_empty() {
+			return false;
+		}
+		for (a, b) in bogus {
+			self.disconnect(a, b);
+		}
+		self.settle(max_rounds)
+	}
+
+	/// Mine `n` empty blocks. Nodes synced through the `Confirm` interface are told only the new tip (the
+	/// contract allows skipping intermediate `best_block_updated` calls); `Listen` nodes get every block.
+	pub fn c03_fast_forward(&mut self, n: u32) {
+		if n == 0 {
+			return;
+		}
+		let mut blocks = vec![];
+		for _ in 0..n {
+			let (b, _) = self.chain.mine(vec![]);
+			let h = self.chain.height();
+			self.rec(SEvent::Mined { height: h, txids: vec![] });
+			blocks.push((b, h));
+		}
+		for i in 0..self.w.n {
+			let style = self.w.nodes[i].connect_style.borrow().clone();
+			let listen = matches!(style, ConnectStyle::FullBlockViaListen | ConnectStyle::FullBlockDisconnectionsSkippingViaListen | ConnectStyle::ReplayedFullBlockViaListen);
+			if listen {
+				for (b, _) in blocks.iter() {
+					self.deliver_block(i, b);
+				}
+			} else {
+				use lightning::chain::Confirm;
+				let nd = &self.w.nodes[i];
+				{
+					let mut nb = nd.blocks.lock().unwrap();
+					for (b, h) in blocks.iter() {
+						nb.push((b.clone(), *h));
+					}
+				}
+				let (b, h) = blocks.last().unwrap();
+				nd.chain_monitor.chain_monitor.best_block_updated(&b.header, *h);
+				nd.node.best_block_updated(&b.header, *h);
+				nd.node.test_process_background_events();
+				nd.chain_monitor.added_monitors.lock().unwrap().clear();
+				let height = *h;
+				self.rec(SEvent::BlockDelivered { node: i, height });
+				self.drain(i);
+			}
+		}
+	}
+}
+
+// -------------------------------------------------------------------------------------------------
+// operations of the C03 profile
+// -------------------------------------------------------------------------------------------------
+
+#[derive(Clone, Debug, Serialize, Deserialize)]
+pub enum XOp {
+	Base(Op),
+	/// explicit single path; tweak 0 none / 1 forwarding fee too small / 2 cltv delta too small (a middle node fails it)
+	SendRoute { route: u16, amt: Amt, tweak: u8 },
+	/// explicit multi-path payment to the last node
+	SendMpp { shape: u16, amt: Amt, split: u16 },
+	SendRouter { far: bool, amt: Amt, retries: u8, mpp: bool },
+	Keysend { far: bool, amt: Amt, retries: u8 },
+	DupSend { pay: u16, kind: u8 },
+	Abandon { pay: u16 },
+	AsyncS { chan: u16, on: bool },
+	/// deliver `k` single messages between S and one peer (alternating directions, peer first), then cut the link
+	Interrupt { peer: u16, k: u8, reconnect: bool },
+	SnapshotS,
+	RestartS { snap: u16, landed: bool },
+	/// mine empty blocks (HTLC timeouts)
+	MineMany { blocks: u8 },
+}
+
+#[derive(Clone, Debug)]
+pub struct XWeights {
+	pub base: OpWeights,
+	pub send_route: u32,
+	pub underpay: u32,
+	pub mpp: u32,
+	pub router: u32,
+	pub keysend: u32,
+	pub dup: u32,
+	pub abandon: u32,
+	pub async_s: u32,
+	pub interrupt: u32,
+	pub snapshot: u32,
+	pub restart: u32,
+	pub mine_many: u32,
+}
+
+pub fn xop_strategy(w: XWeights) -> BoxedStrategy<XOp> {
+	let base_total = {
+		let b = &w.base;
+		b.send + b.claim + b.fail + b.deliver + b.flush + b.events + b.forwards + b.disconnect + b.reconnect + b.setfee + b.timer + b.async_toggle + b.complete + b.pump + b.force_close + b.tamper_revoke + b.mine + b.reorg + b.set_style + b.snapshot + b.restart
+	};
+	let mut v: Vec<(u32, BoxedStrategy<XOp>)> = vec![
+		(base_total, op_strategy(w.base.clone()).prop_map(XOp::Base).boxed()),
+		(w.send_route, (any::<u16>(), amt_strategy()).prop_map(|(route, amt)| XOp::SendRoute { route, amt, tweak: 0 }).boxed()),
+		(w.underpay, (any::<u16>(), amt_strategy(), 1u8..=2).prop_map(|(route, amt, tweak)| XOp::SendRoute { route, amt, tweak }).boxed()),
+		(w.mpp, (any::<u16>(), amt_strategy(), any::<u16>()).prop_map(|(shape, amt, split)| XOp::SendMpp { shape, amt, split }).boxed()),
+		(w.router, (proptest::bool::weighted(0.8), amt_strategy(), 0u8..4, any::<bool>()).prop_map(|(far, amt, retries, mpp)| XOp::SendRouter { far, amt, retries, mpp }).boxed()),
+		(w.keysend, (proptest::bool::weighted(0.8), amt_strategy(), 0u8..3).prop_map(|(far, amt, retries)| XOp::Keysend { far, amt, retries }).boxed()),
+		(w.dup, (any::<u16>(), 0u8..4).prop_map(|(pay, kind)| XOp::DupSend { pay, kind }).boxed()),
+		(w.abandon, any::<u16>().prop_map(|pay| XOp::Abandon { pay }).boxed()),
+		(w.async_s, (any::<u16>(), proptest::bool::weighted(0.7)).prop_map(|(chan, on)| XOp::AsyncS { chan, on }).boxed()),
+		(w.interrupt, (any::<u16>(), 0u8..9, any::<bool>()).prop_map(|(peer, k, reconnect)| XOp::Interrupt { peer, k, reconnect }).boxed()),
+		(w.snapshot, Just(XOp::SnapshotS).boxed()),
+		(w.restart, (prop_oneof![Just(0u16), 0u16..4, any::<u16>()], any::<bool>()).prop_map(|(snap, landed)| XOp::RestartS { snap, landed }).boxed()),
+		(w.mine_many, prop_oneof![1u8..12, 10u8..90].prop_map(|blocks| XOp::MineMany { blocks }).boxed()),
+	];
+	v.retain(|(w, _)| *w > 0);
+	proptest::strategy::Union::new_weighted(v).boxed()
+}
+
+// -------------------------------------------------------------------------------------------------
+// oracle state
+// -------------------------------------------------------------------------------------------------
+
+#[derive(Clone, Debug)]
+pub struct PayMeta {
+	pub kind: Kind,
+	pub id: PaymentId,
+	pub hash: PaymentHash,
+	pub preimage: PaymentPreimage,
+	pub amt: u64,
+	pub to: usize,
+	pub api_ok: bool,
+	pub api: String,
+	pub send_step: u64,
+	/// step at which the harness called claim_funds at the recipient
+	pub claim_step: Option<u64>,
+	pub claimed_event: bool,
+	pub sent_obs: Vec<u64>,
+	pub failed_obs: Vec<u64>,
+	/// (amount_msat, fee_paid_msat) of the first PaymentSent
+	pub first_sent: Option<(Option<u64>, Option<u64>)>,
+	pub absent_since: Option<u64>,
+	pub abandoned: bool,
+	/// a restart of S used a manager snapshot taken before this payment was sent
+	pub predated: bool,
+	/// step at which a part's on-chain claim with the preimage was confirmed (on a channel of S)
+	pub onchain_claim_step: Option<u64>,
+}
+
+#[derive(Clone, Debug)]
+struct Htlc {
+	hash: PaymentHash,
+	amt: u64,
+	emit_step: u64,
+	/// node that generated the failure travelling back over this HTLC
+	fail_origin: Option<usize>,
+	malformed: bool,
+	fail_delivered: bool,
+	fail_consumed: bool,
+	fulfill_delivered: Option<u64>,
+	fulfill_emitted: bool,
+}
+
+#[derive(Default, Clone, Debug)]
+pub struct C03Stats {
+	pub sends_ok: u64,
+	pub sends_refused: u64,
+	pub sent: u64,
+	pub failed: u64,
+	pub path_failed: u64,
+	pub path_failed_attributed: u64,
+	pub repeats_after_restart: u64,
+	pub dup_refused: u64,
+	pub restarts: u64,
+	pub stale_restarts: u64,
+	pub absent_after_restart: u64,
+	pub lost_payments: u64,
+	pub redelivered_removals: u64,
+	pub onchain_claims: u64,
+	pub onchain_failures: u64,
+	pub mixed_mpp: u64,
+	pub accounting_exact: u64,
+	pub accounting_overstated: u64,
+	pub balance_checked: bool,
+	pub s_chan_closed: bool,
+	pub labels: BTreeSet<String>,
+}
+
+pub struct C03 {
+	pub meta: Vec<PayMeta>,
+	pub co: CommitOracle,
+	pub co_dead: Option<String>,
+	cur_s: usize,
+	htlcs: BTreeMap<(ChannelId, usize, u64), Htlc>,
+	/// terminal events (id, is_sent) handled in the lineage of the running manager
+	handled: BTreeSet<([u8; 32], bool)>,
+	snap_handled: BTreeMap<u64, BTreeSet<([u8; 32], bool)>>,
+	/// (step, snapshot step) of S's restarts
+	pub restarts: Vec<(u64, u64)>,
+	closed_s_chans: BTreeSet<ChannelId>,
+	any_chan_closed: bool,
+	start_cap: Option<u64>,
+	pub stats: C03Stats,
+	/// exact accounting profile: no on-chain activity expected
+	pub failure_step: u64,
+}
+
+impl C03 {
+	/// Create right after the world was built (and the graphs seeded).
+	pub fn new(sim: &mut Sim) -> C03 {
+		let mut co = CommitOracle::new(sim);
+		co.allow_force_close = true;
+		let mut c = C03 {
+			meta: vec![],
+			co,
+			co_dead: None,
+			cur_s: sim.log.len(),
+			htlcs: BTreeMap::new(),
+			handled: BTreeSet::new(),
+			snap_handled: BTreeMap::new(),
+			restarts: vec![],
+			closed_s_chans: BTreeSet::new(),
+			any_chan_closed: false,
+			start_cap: sim.c03_s_capacity(),
+			stats: C03Stats::default(),
+			failure_step: 0,
+		};
+		c.snapshot(sim);
+		c
+	}
+
+	fn snapshot(&mut self, sim: &mut Sim) {
+		sim.snapshot_manager(S);
+		let step = sim.snapshots[S].last().unwrap().0;
+		self.snap_handled.insert(step, self.handled.clone());
+	}
+
+	fn label(&mut self, l: &str) {
+		self.stats.labels.insert(l.to_string());
+	}
+
+	fn register(&mut self, sim: &Sim, kind: Kind, idx: usize, id: PaymentId, api: String, ok: bool) {
+		assert_eq!(idx, self.meta.len());
+		let p = &sim.pays[idx];
+		let send_step = sim.log.iter().rev().find(|(_, e)| matches!(e, SEvent::Api { node: S, .. })).map(|(s, _)| *s).unwrap_or(0);
+		self.meta.push(PayMeta {
+			kind,
+			id,
+			hash: p.hash,
+			preimage: p.preimage,
+			amt: p.amt_msat,
+			to: p.to,
+			api_ok: ok,
+			api,
+			send_step,
+			claim_step: None,
+			claimed_event: false,
+			sent_obs: vec![],
+			failed_obs: vec![],
+			first_sent: None,
+			absent_since: None,
+			abandoned: false,
+			predated: false,
+			onchain_claim_step: None,
+		});
+		if ok {
+			self.stats.sends_ok += 1;
+		} else {
+			self.stats.sends_refused += 1;
+		}
+	}
+
+	/// Apply one operation of the profile. Returns a tag for labels.
+	pub fn apply(&mut self, sim: &mut Sim, spec: &WorldSpec, op: &XOp) -> Result<&'static str, Failure> {
+		let n = sim.w.n;
+		let last = n - 1;
+		if self.meta.len() >= 40 && matches!(op, XOp::SendRoute { .. } | XOp::SendMpp { .. } | XOp::SendRouter { .. } | XOp::Keysend { .. } | XOp::DupSend { .. }) {
+			return Ok("send-skipped");
+		}
+		Ok(match op {
+			XOp::Base(op) => apply(sim, spec, op),
+			XOp::SendRoute { route, amt, tweak } => {
+				let routes = s_routes(spec.topo);
+				let chans = routes[pick(*route, routes.len())].clone();
+				let Some(a) = resolve_amount(sim, S, chans[0], amt) else { return Ok("send-skipped") };
+				let a = if chans.len() > 1 { (a / 2).max(1) } else { a };
+				let Some((idx, id, api, ok)) = sim.c03_send_explicit(&[(chans, a)], *tweak) else { return Ok("send-skipped") };
+				self.register(sim, if *tweak == 0 { Kind::Route } else { Kind::Underpay }, idx, id, api, ok);
+				if *tweak == 0 {
+					"send-route"
+				} else {
+					"send-underpaid"
+				}
+			},
+			XOp::SendMpp { shape, amt, split } => {
+				let shapes = mpp_shapes(spec.topo);
+				let paths = shapes[pick(*shape, shapes.len())].clone();
+				let Some(total) = resolve_amount(sim, S, paths[0][0], amt) else { return Ok("send-skipped") };
+				let total = (total / 2).max(paths.len() as u64);
+				// first part gets split/65536 of the total, the others share the rest equally
+				let k = paths.len() as u64;
+				let first = (((total - k) as u128 * *split as u128) >> 16) as u64 + 1;
+				let rest = total - first;
+				let mut parts: Vec<(Vec<usize>, u64)> = vec![];
+				for (i, p) in paths.iter().enumerate() {
+					let a = if i == 0 {
+						first
+					} else {
+						let share = rest / (k - 1);
+						if i as u64 == k - 1 {
+							rest - share * (k - 2)
+						} else {
+							share
+						}
+					};
+					parts.push((p.clone(), a.max(1)));
+				}
+				let Some((idx, id, api, ok)) = sim.c03_send_explicit(&parts, 0) else { return Ok("send-skipped") };
+				self.register(sim, Kind::Mpp, idx, id, api, ok);
+				"send-mpp"
+			},
+			XOp::SendRouter { far, amt, retries, mpp } => {
+				let to = if *far { last } else { 1 };
+				let Some(a) = resolve_amount(sim, S, 0, amt) else { return Ok("send-skipped") };
+				let a = if to != 1 || *mpp { (a / 2).max(1) } else { a };
+				let (idx, id, api, ok) = sim.c03_send_router(to, a, *retries, *mpp);
+				self.register(sim, Kind::Router, idx, id, api, ok);
+				"send-router"
+			},
+			XOp::Keysend { far, amt, retries } => {
+				let to = if *far { last } else { 1 };
+				let Some(a) = resolve_amount(sim, S, 0, amt) else { return Ok("send-skipped") };
+				let a = if to != 1 { (a / 2).max(1) } else { a };
+				let (idx, id, api, ok) = sim.c03_keysend(to, a, *retries);
+				self.register(sim, Kind::Keysend, idx, id, api, ok);
+				"send-keysend"
+			},
+			XOp::DupSend { pay, kind } => {
+				// (f) only ids S itself lists as pending (or abandoned with parts in flight) are probed
+				let recent = sim.c03_recent();
+				let cands: Vec<usize> = (0..self.meta.len()).filter(|i| matches!(recent.get(&self.meta[*i].id.0), Some(&"pending") | Some(&"abandoned"))).collect();
+				if cands.is_empty() {
+					return Ok("dup-skipped");
+				}
+				let i = cands[pick(*pay, cands.len())];
+				let mark = sim.log.len();
+				let (refused, dup, detail) = sim.c03_dup_send(i, *kind);
+				if detail == "skipped" {
+					return Ok("dup-skipped");
+				}
+				let added = sim.log[mark..].iter().any(|(_, e)| matches!(e, SEvent::Emit { from: S, wire: Wire::Add(_), .. }));
+				if !refused || added {
+					return Err(fail("duplicate-id-accepted", format!("a second send (variant {}) with the id of pay#{} (listed as {:?}) was not refused: {} (new HTLC emitted: {})", kind % 4, i, recent.get(&self.meta[i].id.0), detail, added))
+						.with_key(format!("duplicate-id-accepted/variant-{}", kind % 4)));
+				}
+				self.stats.dup_refused += 1;
+				if dup {
+					"dup-refused"
+				} else {
+					self.label("dup-refused-with-other-error");
+					"dup-refused-other"
+				}
+			},
+			XOp::Abandon { pay } => {
+				let recent = sim.c03_recent();
+				let cands: Vec<usize> = (0..self.meta.len()).filter(|i| recent.contains_key(&self.meta[*i].id.0)).collect();
+				if cands.is_empty() {
+					return Ok("abandon-skipped");
+				}
+				let i = cands[pick(*pay, cands.len())];
+				sim.c03_abandon(i);
+				self.meta[i].abandoned = true;
+				"abandon"
+			},
+			XOp::AsyncS { chan, on } => {
+				let mine: Vec<usize> = (0..sim.chans.len()).filter(|c| sim.chans[*c].a == S || sim.chans[*c].b == S).collect();
+				let c = sim.chans[mine[pick(*chan, mine.len())]].id;
+				if !*on && sim.w.pending_updates(S).iter().any(|(pc, _)| *pc == c) {
+					return Ok("async-skipped");
+				}
+				sim.w.set_async(S, Some(c), *on);
+				if *on {
+					"async-on"
+				} else {
+					"async-off"
+				}
+			},
+			XOp::Interrupt { peer, k, reconnect } => {
+				let mut peers: Vec<usize> = sim.chans.iter().filter(|c| c.a == S || c.b == S).map(|c| if c.a == S { c.b } else { c.a }).collect();
+				peers.sort();
+				peers.dedup();
+				let p = peers[pick(*peer, peers.len())];
+				if !sim.is_connected(S, p) {
+					return Ok("interrupt-skipped");
+				}
+				let mut done = 0;
+				let mut dir = true;
+				for _ in 0..(2 * *k as usize + 2) {
+					if done >= *k as usize {
+						break;
+					}
+					let (f, t) = if dir { (p, S) } else { (S, p) };
+					done += sim.deliver(f, t, 1);
+					dir = !dir;
+				}
+				sim.disconnect(S, p);
+				if *reconnect {
+					sim.reconnect(S, p);
+				}
+				"interrupt"
+			},
+			XOp::SnapshotS => {
+				self.snapshot(sim);
+				"snapshot"
+			},
+			XOp::RestartS { snap, landed } => {
+				if sim.snapshots[S].is_empty() {
+					self.snapshot(sim);
+				}
+				match sim.restart(S, *snap, *landed) {
+					Ok(()) => {
+						self.after_restart(sim);
+						"restart"
+					},
+					Err(_) => "restart-failed",
+				}
+			},
+			XOp::MineMany { blocks } => {
+				sim.c03_fast_forward(*blocks as u32);
+				"mine-many"
+			},
+		})
+	}
+
+	/// (e) bookkeeping: payments the restarted node no longer lists
+	fn after_restart(&mut self, sim: &Sim) {
+		let recent = sim.c03_recent();
+		let step = sim.log.last().map(|(s, _)| *s).unwrap_or(0);
+		for m in self.meta.iter_mut() {
+			if m.api_ok && !recent.contains_key(&m.id.0) && m.absent_since.is_none() {
+				m.absent_since = Some(step);
+				self.stats.absent_after_restart += 1;
+			}
+		}
+	}
+
+	/// true if the removal of S's HTLC `id` on channel `chan` by a fulfil is irrevocable for S: S has revoked
+	/// every commitment of its own that still carried the HTLC (model view, from wire messages only)
+	fn settled_irrevocably(&self, sim: &Sim, chan: ChannelId, id: u64) -> bool {
+		if self.co_dead.is_some() {
+			return false;
+		}
+		let Some(ci) = sim.chans.iter().position(|c| c.id == chan) else { return false };
+		let side = if sim.chans[ci].a == S { 0 } else { 1 };
+		let m = &self.co.models[ci];
+		let j = m.sides[side].raa_secrets.len();
+		if j == 0 {
+			return false;
+		}
+		let Some(cs) = m.sides[1 - side].cs.get(j - 1) else { return false };
+		m.sides[1 - side].updates[..cs.covers].iter().any(|u| *u == Upd::Fulfill { id })
+	}
+
+	/// parts (S's own HTLCs) of a payment
+	fn parts_of(&self, hash: &PaymentHash) -> Vec<(&(ChannelId, usize, u64), &Htlc)> {
+		self.htlcs.iter().filter(|(k, h)| k.1 == S && h.hash == *hash).collect()
+	}
+
+	fn last_restart_snapshot(&self) -> Option<u64> {
+		self.restarts.last().map(|r| r.1)
+	}
+
+	/// Consume the new part of the simulator log and evaluate every event-level oracle.
+	pub fn step(&mut self, sim: &Sim) -> CaseResult {
+		if self.co_dead.is_none() {
+			if let Err(f) = self.co.step(sim) {
+				self.co_dead = Some(f.oracle.clone());
+			}
+		}
+		let evs: Vec<(u64, SEvent)> = sim.log[self.cur_s..].to_vec();
+		self.cur_s = sim.log.len();
+		for (at, ev) in evs {
+			self.failure_step = at;
+			match ev {
+				SEvent::Emit { from, to, wire } => match &wire {
+					Wire::Add(m) => {
+						self.htlcs.entry((m.channel_id, from, m.htlc_id)).or_insert(Htlc {
+							hash: m.payment_hash,
+							amt: m.amount_msat,
+							emit_step: at,
+							fail_origin: None,
+							malformed: false,
+							fail_delivered: false,
+							fail_consumed: false,
+							fulfill_delivered: None,
+							fulfill_emitted: false,
+						});
+					},
+					Wire::Fail(_) | Wire::FailMalformed(_) => {
+						let (chan, id, malformed) = match &wire {
+							Wire::Fail(m) => (m.channel_id, m.htlc_id, false),
+							Wire::FailMalformed(m) => (m.channel_id, m.htlc_id, true),
+							_ => unreachable!(),
+						};
+						let Some(h) = self.htlcs.get(&(chan, to, id)).cloned() else { continue };
+						if h.fail_origin.is_some() {
+							if to == S {
+								self.stats.redelivered_removals += 1;
+							}
+							continue;
+						}
+						// relayed if a failure for the same payment already came back to `from` from downstream
+						let down = self.htlcs.iter_mut().find(|(k, d)| k.1 == from && d.hash == h.hash && d.fail_delivered && !d.fail_consumed);
+						let (origin, mal) = match down {
+							Some((_, d)) => {
+								d.fail_consumed = true;
+								(d.fail_origin.unwrap_or(from), d.malformed || malformed)
+							},
+							None => (from, malformed),
+						};
+						let h = self.htlcs.get_mut(&(chan, to, id)).unwrap();
+						h.fail_origin = Some(origin);
+						h.malformed = mal;
+					},
+					Wire::Fulfill(m) => {
+						if let Some(h) = self.htlcs.get_mut(&(m.channel_id, to, m.htlc_id)) {
+							if h.fulfill_emitted && to == S {
+								self.stats.redelivered_removals += 1;
+							}
+							h.fulfill_emitted = true;
+						}
+					},
+					_ => {},
+				},
+				SEvent::Deliver { to, wire, .. } => match &wire {
+					Wire::Fail(m) => {
+						if let Some(h) = self.htlcs.get_mut(&(m.channel_id, to, m.htlc_id)) {
+							h.fail_delivered = true;
+						}
+					},
+					Wire::FailMalformed(m) => {
+						if let Some(h) = self.htlcs.get_mut(&(m.channel_id, to, m.htlc_id)) {
+							h.fail_delivered = true;
+						}
+					},
+					Wire::Fulfill(m) => {
+						if let Some(h) = self.htlcs.get_mut(&(m.channel_id, to, m.htlc_id)) {
+							if h.fulfill_delivered.is_none() {
+								h.fulfill_delivered = Some(at);
+							}
+						}
+					},
+					_ => {},
+				},
+				SEvent::Api { what, .. } => {
+					if let Some(rest) = what.strip_prefix("claim pay#") {
+						if let Ok(i) = rest.parse::<usize>() {
+							if let Some(m) = self.meta.get_mut(i) {
+								m.claim_step.get_or_insert(at);
+							}
+						}
+					}
+				},
+				SEvent::Restart { node: S, snapshot_step, ok, .. } => {
+					if !ok {
+						continue;
+					}
+					self.stats.restarts += 1;
+					self.restarts.push((at, snapshot_step));
+					if let Some(h) = self.snap_handled.get(&snapshot_step) {
+						self.handled = h.clone();
+					}
+					let mut stale = false;
+					for m in self.meta.iter_mut() {
+						if m.api_ok && m.send_step > snapshot_step {
+							m.predated = true;
+							stale = true;
+						}
+					}
+					if stale {
+						self.stats.stale_restarts += 1;
+					}
+				},
+				SEvent::Mined { txids, .. } => {
+					// a confirmed input whose witness carries the preimage of one of S's payments and that spends a
+					// commitment transaction of one of S's channels = the peer claimed S's HTLC on chain
+					for txid in txids {
+						let Some((tx, _)) = sim.chain.confirmed.get(&txid) else { continue };
+						for inp in tx.input.iter() {
+							let Some(parent) = sim.chain.seen.get(&inp.previous_output.txid) else { continue };
+							let spends_s_commitment = sim.chans.iter().any(|c| (c.a == S || c.b == S) && parent.input.iter().any(|pi| pi.previous_output.txid == c.funding_tx.compute_txid()));
+							if !spends_s_commitment {
+								continue;
+							}
+							for el in inp.witness.iter() {
+								if el.len() == 32 {
+									if let Some(m) = self.meta.iter_mut().find(|m| m.preimage.0[..] == *el) {
+										if m.onchain_claim_step.is_none() {
+											m.onchain_claim_step = Some(at);
+											self.stats.onchain_claims += 1;
+										}
+									}
+								}
+							}
+						}
+					}
+				},
+				SEvent::Ldk { node, ev } => {
+					if node != S {
+						if let Event::ChannelClosed { .. } = &ev {
+							self.any_chan_closed = true;
+						}
+						if let Event::PaymentClaimed { payment_hash, .. } = &ev {
+							if let Some(m) = self.meta.iter_mut().find(|m| m.hash == *payment_hash && m.to == node) {
+								m.claimed_event = true;
+							}
+						}
+						continue;
+					}
+					self.on_sender_event(sim, at, &ev)?;
+				},
+				_ => {},
+			}
+		}
+		// (e) a payment the restarted node no longer lists has no HTLC in flight, now or later
+		let absent: Vec<usize> = (0..self.meta.len()).filter(|i| self.meta[*i].absent_since.is_some()).collect();
+		if !absent.is_empty() {
+			let (ids, hashes) = sim.c03_inflight();
+			for i in absent {
+				let m = &self.meta[i];
+				if ids.contains(&m.id.0) || hashes.contains(&m.hash) {
+					return Err(fail(
+						"unlisted-payment-in-flight",
+						format!("pay#{} ({:?}) is absent from list_recent_payments since the restart at step {:?} but S still has an HTLC of it in flight (by id: {}, by hash: {})", i, m.kind, m.absent_since, ids.contains(&m.id.0), hashes.contains(&m.hash)),
+					));
+				}
+			}
+		}
+		Ok(())
+	}
+
+	fn on_sender_event(&mut self, sim: &Sim, at: u64, ev: &Event) -> CaseResult {
+		match ev {
+			Event::PaymentSent { payment_id, payment_preimage, payment_hash, amount_msat, fee_paid_msat, .. } => {
+				self.stats.sent += 1;
+				// (a) the preimage is the preimage of the hash
+				let h = sha256::Hash::hash(&payment_preimage.0).to_byte_array();
+				if h != payment_hash.0 {
+					return Err(fail("payment-sent-untruthful", format!("PaymentSent carries a preimage that does not hash to its payment hash {}", payment_hash)).with_key("payment-sent-untruthful/preimage-mismatch"));
+				}
+				let Some(i) = payment_id.and_then(|id| self.meta.iter().position(|m| m.id == id)) else {
+					return Err(fail("event-for-unknown-payment", format!("PaymentSent for an id the harness never used: {:?}", payment_id)));
+				};
+				let last_snap = self.last_restart_snapshot();
+				let m = &mut self.meta[i];
+				if m.hash != *payment_hash {
+					return Err(fail("payment-sent-untruthful", format!("PaymentSent for pay#{} names hash {} but the payment was sent for {}", i, payment_hash, m.hash)).with_key("payment-sent-untruthful/hash-mismatch"));
+				}
+				// (a) the recipient released the preimage earlier (claim_funds was called at the recipient)
+				if m.claim_step.map(|c| c > at).unwrap_or(true) {
+					return Err(fail("payment-sent-untruthful", format!("PaymentSent for pay#{} ({:?}) at step {} although the recipient never released the preimage", i, m.kind, at)).with_key("payment-sent-untruthful/not-released"));
+				}
+				if !m.failed_obs.is_empty() {
+					return Err(fail("contradictory-terminal-events", format!("PaymentSent for pay#{} at step {} after PaymentFailed at step {:?}", i, at, m.failed_obs)).with_key("contradictory-terminal-events/sent-after-failed"));
+				}
+				// (d) one terminal event unless the running manager comes from a snapshot that had not handled it
+				if self.handled.contains(&(m.id.0, true)) {
+					let restarted = self.restarts.iter().any(|r| r.0 > *m.sent_obs.last().unwrap_or(&0));
+					return Err(fail(
+						"duplicate-terminal-event",
+						format!("PaymentSent for pay#{} ({:?}) repeated at step {} (earlier at {:?}); the running manager (restart snapshot {:?}) had already handled it", i, m.kind, at, m.sent_obs, last_snap),
+					)
+					.with_key(if restarted { "duplicate-terminal-event/sent/after-handled-and-persisted" } else { "duplicate-terminal-event/sent/no-restart" }));
+				}
+				if !m.sent_obs.is_empty() {
+					self.stats.repeats_after_restart += 1;
+				}
+				if m.absent_since.is_some() && m.sent_obs.is_empty() {
+					return Err(fail("unlisted-payment-completed", format!("pay#{} was absent from list_recent_payments after the restart at step {:?} and nevertheless completed with PaymentSent at step {}", i, m.absent_since, at)));
+				}
+				if m.first_sent.is_none() {
+					m.first_sent = Some((*amount_msat, *fee_paid_msat));
+					// explicit routes deliver exactly the requested amount; the router may overpay to meet a channel's
+					// htlc_minimum_msat, which the event then reports (the accounting check ties it to the HTLCs sent)
+					let explicit = matches!(m.kind, Kind::Route | Kind::Underpay | Kind::Mpp);
+					if !m.predated && !(if explicit { *amount_msat == Some(m.amt) } else { amount_msat.map(|a| a >= m.amt).unwrap_or(false) }) {
+						return Err(fail("payment-sent-untruthful", format!("PaymentSent for pay#{} reports amount {:?}, the payment was for {}", i, amount_msat, m.amt)).with_key("payment-sent-untruthful/amount"));
+					}
+				}
+				m.sent_obs.push(at);
+				self.handled.insert((m.id.0, true));
+			},
+			Event::PaymentFailed { payment_id, payment_hash, reason } => {
+				self.stats.failed += 1;
+				let Some(i) = self.meta.iter().position(|m| m.id == *payment_id) else {
+					return Err(fail("event-for-unknown-payment", format!("PaymentFailed for an id the harness never used: {:?}", payment_id)));
+				};
+				let last_snap = self.last_restart_snapshot();
+				let m = self.meta[i].clone();
+				if let Some(h) = payment_hash {
+					if *h != m.hash {
+						return Err(fail("payment-failed-untruthful", format!("PaymentFailed for pay#{} names hash {} but the payment was sent for {}", i, h, m.hash)).with_key("payment-failed-untruthful/hash-mismatch"));
+					}
+				}
+				if let Some(sent) = m.sent_obs.first() {
+					// documented limitation (listed finding): the manager snapshot used by the last restart predates PaymentSent
+					let stale = last_snap.map(|s| s < *sent).unwrap_or(false);
+					return Err(fail(
+						"contradictory-terminal-events",
+						format!("PaymentFailed ({:?}) for pay#{} at step {} after PaymentSent at step {} (last restart used the manager snapshot of step {:?})", reason, i, at, sent, last_snap),
+					)
+					.with_key(if stale { "contradictory-terminal-events/failed-after-sent/manager-snapshot-predates-sent" } else { "contradictory-terminal-events/failed-after-sent" }));
+				}
+				if self.handled.contains(&(m.id.0, false)) {
+					let restarted = self.restarts.iter().any(|r| r.0 > *m.failed_obs.last().unwrap_or(&0));
+					return Err(fail(
+						"duplicate-terminal-event",
+						format!("PaymentFailed for pay#{} ({:?}) repeated at step {} (earlier at {:?}); the running manager (restart snapshot {:?}) had already handled it", i, m.kind, at, m.failed_obs, last_snap),
+					)
+					.with_key(if restarted { "duplicate-terminal-event/failed/after-handled-and-persisted" } else { "duplicate-terminal-event/failed/no-restart" }));
+				}
+				if !m.failed_obs.is_empty() {
+					self.stats.repeats_after_restart += 1;
+				}
+				// truthful: no part was settled ...
+				let mut settled: Option<String> = None;
+				let mut fulfil_step = None;
+				for (k, h) in self.parts_of(&m.hash) {
+					if self.settled_irrevocably(sim, k.0, k.2) {
+						settled = Some(format!("HTLC {} on its channel was removed by update_fulfill_htlc and S revoked the commitments carrying it", k.2));
+						fulfil_step = h.fulfill_delivered;
+					}
+				}
+				if settled.is_none() && m.onchain_claim_step.is_some() {
+					settled = Some(format!("the peer claimed its HTLC on chain with the preimage (confirmed at step {:?})", m.onchain_claim_step));
+					fulfil_step = m.onchain_claim_step;
+				}
+				if let Some(how) = settled {
+					let stale = match (last_snap, fulfil_step) {
+						(Some(s), Some(f)) => s < f,
+						_ => false,
+					};
+					return Err(fail(
+						"payment-failed-untruthful",
+						format!("PaymentFailed ({:?}) for pay#{} ({:?}) at step {} although a part was settled: {} (last restart used the manager snapshot of step {:?}, the fulfil reached S at step {:?})", reason, i, m.kind, at, how, last_snap, fulfil_step),
+					)
+					.with_key(if stale { "payment-failed-untruthful/settled/manager-snapshot-predates-fulfil" } else { "payment-failed-untruthful/settled" }));
+				}
+				// ... and none is pending
+				let (ids, hashes) = sim.c03_inflight();
+				if ids.contains(&m.id.0) || hashes.contains(&m.hash) {
+					// listed finding: the manager snapshot used by the last restart was written while the HTLC still sat
+					// in the holding cell (before its update_add_htlc left), the monitor meanwhile committed it
+					let newest_part = self.parts_of(&m.hash).iter().map(|(_, h)| h.emit_step).max();
+					let stale = match (last_snap, newest_part) {
+						(Some(s), Some(e)) => s < e && s > m.send_step,
+						_ => false,
+					};
+					return Err(fail(
+						"payment-failed-untruthful",
+						format!("PaymentFailed ({:?}) for pay#{} ({:?}) at step {} while S still has an HTLC of it in flight (by id: {}, by hash: {}; last restart snapshot {:?}, payment sent at {}, newest update_add_htlc at {:?})", reason, i, m.kind, at, ids.contains(&m.id.0), hashes.contains(&m.hash), last_snap, m.send_step, newest_part),
+					)
+					.with_key(if stale { "payment-failed-while-htlc-live/manager-snapshot-predates-commitment" } else { "payment-failed-untruthful/part-pending" }));
+				}
+				let m = &mut self.meta[i];
+				m.failed_obs.push(at);
+				self.handled.insert((m.id.0, false));
+			},
+			Event::PaymentPathFailed { payment_hash, path, short_channel_id, failure, .. } => {
+				self.stats.path_failed += 1;
+				// (g) the named channel lies at or next to the node that generated the failure
+				let first = path.hops[0].short_channel_id;
+				if let PathFailure::InitialSend { .. } = failure {
+					if let Some(x) = short_channel_id {
+						if *x != first {
+							return Err(fail("path-failure-misattributed", format!("initial send failure names channel {} but the path starts with {}", x, first)).with_key("path-failure-misattributed/initial-send"));
+						}
+					}
+					return Ok(());
+				}
+				let total: u64 = path.hops.iter().map(|h| h.fee_msat).sum();
+				let Some(first_chan) = sim.chans.iter().find(|c| c.scid == first) else { return Ok(()) };
+				let mut origins: BTreeSet<usize> = BTreeSet::new();
+				let mut malformed = false;
+				let mut matched = 0;
+				for (k, h) in self.htlcs.iter() {
+					if k.1 == S && k.0 == first_chan.id && h.hash == *payment_hash && h.amt == total && h.fulfill_delivered.is_none() {
+						matched += 1;
+						malformed |= h.malformed;
+						match (h.fail_delivered, h.fail_origin) {
+							(true, Some(o)) => {
+								origins.insert(o);
+								if self.closed_s_chans.contains(&k.0) {
+									origins.insert(S);
+								}
+							},
+							_ => {
+								origins.insert(S);
+							},
+						}
+					}
+				}
+				if matched == 0 {
+					self.label("path-failed-unmatched");
+					return Ok(());
+				}
+				let mut nodes = vec![S];
+				for h in path.hops.iter() {
+					nodes.push(sim.w.index_of(&h.pubkey).unwrap_or(usize::MAX));
+				}
+				let mut ok = false;
+				for o in origins.iter() {
+					let Some(k) = nodes.iter().position(|x| x == o) else { continue };
+					let mut adj = vec![];
+					if k >= 1 {
+						adj.push(path.hops[k - 1].short_channel_id);
+					}
+					if k < path.hops.len() {
+						adj.push(path.hops[k].short_channel_id);
+					}
+					match short_channel_id {
+						Some(x) => ok |= adj.contains(x),
+						// a failure of the recipient itself (or a bad-onion report) names no channel
+						None => ok |= k == path.hops.len() || malformed,
+					}
+				}
+				if !ok {
+					return Err(fail(
+						"path-failure-misattributed",
+						format!("PaymentPathFailed at step {} names channel {:?}; path nodes {:?} over channels {:?}; the failure was generated by node(s) {:?}", at, short_channel_id, nodes, path.hops.iter().map(|h| h.short_channel_id).collect::<Vec<_>>(), origins),
+					));
+				}
+				self.stats.path_failed_attributed += 1;
+			},
+			Event::ChannelClosed { channel_id, .. } => {
+				self.any_chan_closed = true;
+				self.closed_s_chans.insert(*channel_id);
+				self.stats.s_chan_closed = true;
+			},
+			_ => {},
+		}
+		Ok(())
+	}
+
+	/// End-of-case oracles. `quiet`: the world reached quiescence with all on-chain resolution complete.
+	pub fn finish(&mut self, sim: &Sim, quiet: bool) -> CaseResult {
+		let recent = sim.c03_recent();
+		let (ids, hashes) = sim.c03_inflight();
+		let mut total_fulfilled: u64 = 0;
+		let mut all_resolved = true;
+		for i in 0..self.meta.len() {
+			let m = self.meta[i].clone();
+			let parts: Vec<((ChannelId, usize, u64), Htlc)> = self.parts_of(&m.hash).into_iter().map(|(k, h)| (*k, h.clone())).collect();
+			let fulfilled_offchain: u64 = parts.iter().filter(|(_, h)| h.fulfill_delivered.is_some()).map(|(_, h)| h.amt).sum();
+			total_fulfilled += fulfilled_offchain;
+			let any_settled = parts.iter().any(|(k, _)| self.settled_irrevocably(sim, k.0, k.2)) || m.onchain_claim_step.is_some();
+			let in_flight = ids.contains(&m.id.0) || hashes.contains(&m.hash);
+			let terminal = !m.sent_obs.is_empty() || !m.failed_obs.is_empty();
+			if in_flight || (m.api_ok && !terminal) {
+				all_resolved = false;
+			}
+			let path_closed = parts.iter().any(|(k, _)| self.closed_s_chans.contains(&k.0));
+			if !m.sent_obs.is_empty() && !parts.is_empty() {
+				let failed_part = parts.iter().any(|(_, h)| h.fulfill_delivered.is_none());
+				if failed_part && parts.len() > 1 {
+					self.stats.mixed_mpp += 1;
+				}
+			}
+			if !quiet {
+				continue;
+			}
+			// (b) a settled part => PaymentSent by now
+			if any_settled && m.sent_obs.is_empty() {
+				let fulfil_step = parts.iter().filter_map(|(_, h)| h.fulfill_delivered).min().or(m.onchain_claim_step);
+				let stale = match (self.last_restart_snapshot(), fulfil_step) {
+					(Some(s), Some(f)) => s < f,
+					_ => false,
+				};
+				return Err(fail(
+					"settled-but-never-sent",
+					format!("a part of pay#{} ({:?}) was settled (fulfil reached S at step {:?}, on-chain claim {:?}) but S never reported PaymentSent (PaymentFailed at {:?}, listed: {:?}, last restart snapshot {:?})", i, m.kind, fulfil_step, m.onchain_claim_step, m.failed_obs, recent.get(&m.id.0), self.last_restart_snapshot()),
+				)
+				.with_key(if stale { "settled-but-never-sent/manager-snapshot-predates-fulfil" } else { "settled-but-never-sent" }));
+			}
+			// (b) the recipient's claim went through and nothing on the way was closed => PaymentSent
+			// (with a channel closed somewhere on the way a forwarder can end up unable to claim upstream -- e.g. a
+			// dust HTLC on the closed channel -- and then takes the loss itself; that is C02's subject)
+			if m.claimed_event && m.sent_obs.is_empty() && !self.any_chan_closed && self.co_dead.is_none() {
+				return Err(fail("claimed-but-never-sent", format!("pay#{} ({:?}) was claimed by the recipient (PaymentClaimed) and no channel was closed, but S never reported PaymentSent (failed at {:?}, listed {:?})", i, m.kind, m.failed_obs, recent.get(&m.id.0))));
+			}
+			// (c) nothing settled, nothing pending => PaymentFailed, exactly
+			if m.api_ok && !terminal && !in_flight {
+				if m.predated && !recent.contains_key(&m.id.0) {
+					// the restarted manager never knew the payment and no monitor carried an HTLC of it: it is lost,
+					// cannot complete (checked by (e)) and may be retried
+					self.stats.lost_payments += 1;
+				} else {
+					return Err(fail(
+						"no-terminal-event",
+						format!("pay#{} ({:?}, api {}) has no HTLC in flight and none settled, yet S reported neither PaymentSent nor PaymentFailed at quiescence (listed: {:?}, abandoned by user: {}, restarts {:?}, sent at step {})", i, m.kind, m.api, recent.get(&m.id.0), m.abandoned, self.restarts, m.send_step),
+					)
+					.with_key(format!("no-terminal-event/{}", recent.get(&m.id.0).unwrap_or(&"unlisted"))));
+				}
+			}
+			if !m.api_ok && terminal && !m.api.contains("Ok(") {
+				return Err(fail("event-for-refused-payment", format!("pay#{} was refused by the send API ({}) but produced a terminal event", i, m.api)));
+			}
+			// (a) accounting: amount + fee reported = what the fulfilled HTLCs of the payment carried
+			if let (Some((Some(a), Some(f))), false) = (m.first_sent, m.predated) {
+				let reported = a + f;
+				let onchain_possible = path_closed || m.onchain_claim_step.is_some();
+				if !onchain_possible {
+					if reported != fulfilled_offchain {
+						return Err(fail(
+							"payment-sent-untruthful",
+							format!("pay#{} ({:?}): PaymentSent reported amount {} + fee {} = {} msat but the HTLCs of the payment that were fulfilled carried {} msat ({} parts)", i, m.kind, a, f, reported, fulfilled_offchain, parts.len()),
+						)
+						.with_key("payment-sent-untruthful/amount-plus-fee"));
+					}
+					self.stats.accounting_exact += 1;
+				} else if reported < fulfilled_offchain {
+					return Err(fail("payment-sent-untruthful", format!("pay#{}: PaymentSent reported {} msat in total, less than the {} msat of its HTLCs fulfilled off chain", i, reported, fulfilled_offchain)).with_key("payment-sent-untruthful/understated"));
+				} else if reported > fulfilled_offchain {
+					self.stats.accounting_overstated += 1;
+				}
+			}
+		}
+		// S's balances fell by exactly what its fulfilled HTLCs carried (channels all alive, nothing in flight)
+		if quiet && all_resolved && !self.stats.s_chan_closed && ids.is_empty() && hashes.is_empty() {
+			if let (Some(before), Some(after)) = (self.start_cap, sim.c03_s_capacity()) {
+				let pending: usize = sim.w.nodes[S].node.list_channels().iter().map(|d| d.pending_outbound_htlcs.len() + d.pending_inbound_htlcs.len()).sum();
+				if pending == 0 {
+					if before < after || before - after != total_fulfilled {
+						return Err(fail(
+							"balance-mismatch",
+							format!("S's outbound capacity went from {} to {} msat (decrease {}), but its fulfilled HTLCs carried {} msat in total; every PaymentSent reported amount+fee equal to its fulfilled HTLCs", before, after, before as i128 - after as i128, total_fulfilled),
+						));
+					}
+					self.stats.balance_checked = true;
+				}
+			}
+		}
+		Ok(())
+	}
+
+	/// Drive the world to full resolution: settle, resolve what is claimable by the generated choices
+	/// (0 claim, 1 fail back, 2 ignore until it times out), mine until nothing is left on chain or in flight
+	/// (bounded). Returns true if quiescent with chain resolution complete.
+	pub fn end_game(&mut self, sim: &mut Sim, choices: &[u8], max_blocks: u32) -> Result<bool, Failure> {
+		let t0 = std::time::Instant::now();
+		let mut quiet = sim.c03_settle(40);
+		self.step(sim)?;
+		for _ in 0..3 {
+			let cands: Vec<usize> = sim.pays.iter().filter(|p| p.state == PayState::Claimable).map(|p| p.idx).collect();
+			let mut acted = false;
+			for p in cands {
+				match choices[p % choices.len()] {
+					0..=2 => {
+						sim.claim(p);
+						acted = true;
+					},
+					3..=4 => {
+						sim.fail_back(p);
+						acted = true;
+					},
+					_ => {},
+				}
+			}
+			if !acted {
+				break;
+			}
+			quiet = sim.c03_settle(40);
+			self.step(sim)?;
+		}
+		let mut mined = 0;
+		let mut idle = 0;
+		while mined < max_blocks {
+			for i in 0..sim.w.n {
+				sim.w.nodes[i].chain_monitor.chain_monitor.rebroadcast_pending_claims();
+				sim.drain(i);
+			}
+			// orphans (their parent lost against a competing transaction) and double spends can never be mined
+			let h = sim.chain.height() + 1;
+			let keep: Vec<bool> = sim.chain.mempool.iter().map(|tx| !matches!(sim.chain.check_tx(tx, h, &std::collections::HashMap::new(), true), Err(crate::chain::Reject::MissingInput(_)) | Err(crate::chain::Reject::AlreadySpent(_, _)))).collect();
+			let mut it = keep.iter();
+			sim.chain.mempool.retain(|_| *it.next().unwrap());
+			let (ids, hashes) = sim.c03_inflight();
+			if !sim.c03_chain_unresolved() && ids.is_empty() && hashes.is_empty() {
+				break;
+			}
+			let txs = sim.chain.mempool.clone();
+			if !txs.is_empty() {
+				sim.mine_block(txs);
+				mined += 1;
+			} else {
+				// nothing to confirm: jump ahead to let timelocks mature
+				let burst = [6, 6, 12, 24][idle.min(3)].min(max_blocks - mined);
+				sim.c03_fast_forward(burst);
+				mined += burst;
+				idle += 1;
+			}
+			quiet = sim.c03_settle(20);
+			self.step(sim)?;
+		}
+		// bury whatever was resolved last (events of on-chain resolutions wait for ANTI_REORG_DELAY confirmations)
+		sim.c03_fast_forward(7);
+		for i in 0..sim.w.n {
+			sim.timer_tick(i);
+		}
+		let _ = quiet;
+		quiet = sim.c03_settle(30);
+		self.step(sim)?;
+		if std::env::var("C03_DEBUG_END").is_ok() {
+			for tx in sim.chain.mempool.iter() {
+				dbg_line(&format!("END mempool tx {} ins {:?} verdict {:?}", tx.compute_txid(), tx.input.iter().map(|i| i.previous_output).collect::<Vec<_>>(), sim.chain.check_tx(tx, sim.chain.height() + 1, &std::collections::HashMap::new(), false)));
+			}
+		}
+		let (ids, hashes) = sim.c03_inflight();
+		if !quiet {
+			self.label("end:settle-not-quiescent");
+			let tail: Vec<String> = sim.log.iter().rev().take(6).map(|(s, e)| format!("{} {}", s, format!("{:?}", e).chars().take(140).collect::<String>())).collect();
+			dbg_line(&format!("NOTQUIET pending_updates {:?} queued {} tail {:#?}", (0..sim.w.n).map(|i| sim.w.pending_updates(i).len()).collect::<Vec<_>>(), sim.total_queued(), tail));
+		}
+		if !sim.chain.mempool.is_empty() {
+			self.label("end:mempool-not-empty");
+		}
+		if !ids.is_empty() || !hashes.is_empty() {
+			self.label("end:sender-htlc-in-flight");
+		}
+		for (i, nd) in sim.w.nodes.iter().enumerate() {
+			for b in nd.chain_monitor.chain_monitor.get_claimable_balances(&[]) {
+				if !matches!(b, Balance::ClaimableOnChannelClose { .. }) {
+					let kind = format!("{:?}", b);
+					let l = format!("end:balance-open:{}:{}", if i == S { "S" } else { "other" }, kind.split(|c: char| !c.is_alphanumeric()).next().unwrap_or(""));
+					self.label(&l);
+				}
+			}
+		}
+		dbg_line(&format!("TIMING end_game {} ms mined {} nodes {}", t0.elapsed().as_millis(), mined, sim.w.n));
+		self.label(&format!("end:blocks-mined:{}", if mined == 0 { "0" } else if mined < 50 { "<50" } else if mined < 200 { "<200" } else if mined < max_blocks { "<max" } else { "max" }));
+		Ok(quiet && !sim.c03_chain_unresolved())
+	}
+}
